@@ -61,7 +61,29 @@ TEXTS = {
     "T-loops": "def 0 { forever { a(); if ($V == 1) { continue; } switch ($S) { case 1: b(); break; case 2: while ($W == 2) { c(); if ($V == 3) { break_loop; } "
                "for ($I = 0; $I < 3; $I += 1;) { d(); if ($V == 4) { continue; } e(); } } break; default: f(); break_loop; } g(); } end; }",
 }
-CALLS = [("decompile", k) for k in SETS] + [("compile", k) for k in TEXTS] + [("compile-reuse", k) for k in ("T-simple", "T-flow", "T-macro", "T-fail-break")]
+# texts that live in files (imports): a fixed directory so that results do not depend on the process
+IMPORT_DIR = "/tmp/vf-c11-imports"
+FILES = {"lib.exps": "macro lib($p) { l($p); if ($p == 1) { return; } m(); }\n",
+         "mid.exps": 'import "./lib.exps";\nmacro mid() { ~lib(2); n(); }\n'}
+TEXTS["T-imp-lib"] = FILES["lib.exps"]
+TEXTS["T-imp-main"] = 'import "./mid.exps";\ndef 0 { ~mid(); ~lib(1); return; }\n'
+PATHS = {"T-imp-lib": IMPORT_DIR + "/lib.exps", "T-imp-main": IMPORT_DIR + "/main.exps"}
+
+
+def path_of(name: str) -> str:
+    if name in PATHS:
+        os.makedirs(IMPORT_DIR, exist_ok=True)
+        for fn, text in FILES.items():
+            fp = os.path.join(IMPORT_DIR, fn)
+            if not os.path.exists(fp):
+                with open(fp + f".{os.getpid()}", "w") as fh:
+                    fh.write(text)
+                os.replace(fp + f".{os.getpid()}", fp)
+        return PATHS[name]
+    return "/vf-nonexistent/main.exps"
+
+
+CALLS = [("decompile", k) for k in SETS] + [("compile", k) for k in TEXTS] + [("compile-reuse", k) for k in ("T-simple", "T-flow", "T-macro", "T-fail-break", "T-imp-lib", "T-imp-main")]
 
 
 def digest(x) -> str:
@@ -87,12 +109,12 @@ def _history_child(conn, history, adversarial):
                 out = {"status": d["status"], "text": d["text"], "sm": d["sm"], "mutated": d["mutated"]}
                 mutated = d["mutated"]
             elif kind == "compile":
-                c = drive.compile_text(TEXTS[name])
+                c = drive.compile_text(TEXTS[name], path_of(name))
                 out = {k: c[k] for k in ("status", "ops", "infos", "sm", "mro")}
                 mutated = False
             else:
                 try:
-                    shared.compile(TEXTS[name], "/vf-nonexistent/main.exps")
+                    shared.compile(TEXTS[name], path_of(name))
                     out = {"status": "ok", "ops": canon.ops_recs(shared.routine_ops, True), "infos": canon.infos_recs(shared.routine_infos, shared.named_coroutines),
                            "sm": shared.source_map.serialize(), "mro": list(shared.macro_resolution_order)}
                 except Exception as ex:
